@@ -141,6 +141,11 @@ fn to_tokens_integers<T: RangeNumber>(
             .get_keys_inner(&mut key_path, &mut captured_values, false)
             .unwrap_at("ranges::to_tokens_integers_1");
     }
+    // the count is called inside the closure below, which must own a clone of it like the other captured values:
+    // the value around the range can use the count again, or be a component (its children must be `Fn`).
+    captured_values
+        .get_interpol_keys_mut()
+        .push_var(count_key.clone(), Default::default());
 
     let captured_values = captured_values.is_interpol().map(|keys| {
         let keys = keys
@@ -195,6 +200,11 @@ fn to_tokens_floats<T: RangeNumber>(
             .get_keys_inner(&mut key_path, &mut captured_values, false)
             .unwrap_at("ranges::to_tokens_floats_1");
     }
+    // the count is called inside the closure below, which must own a clone of it like the other captured values:
+    // the value around the range can use the count again, or be a component (its children must be `Fn`).
+    captured_values
+        .get_interpol_keys_mut()
+        .push_var(count_key.clone(), Default::default());
 
     let captured_values = captured_values.is_interpol().map(|keys| {
         let keys = keys
